@@ -68,7 +68,7 @@ def run_one(case, top, watchdog_s=40):
         t0 = time.time()
         try:
             ret = lab.run_tasks(req, bust_cache=bool(case['bust']), disable_progress=not top, disable_top=not top)
-            status = 'returned ' + ','.join(f'{t.k}:{v}' for t, v in ret.items())
+            status = 'returned ' + ','.join(f'{t.k}:{dagcase.code(v)}' for t, v in ret.items())
         except Watchdog:
             status = 'HANG watchdog after %ds' % watchdog_s
         except LabError as e:
@@ -85,7 +85,7 @@ def run_one(case, top, watchdog_s=40):
         store = {}
         for t, o in sorted(first.items()):
             if lab.is_cached(o):
-                store[t] = o._lt.cache.load_result_with_meta(lab._storage, o).value
+                store[t] = dagcase.code(o._lt.cache.load_result_with_meta(lab._storage, o).value)
         marked = sorted(i for i, o in enumerate(objs) if o.result_meta is not None)
         runner = holder.get('runner')
         left = sorted(t.k for t in runner.results_map) if runner is not None else []
